@@ -446,6 +446,11 @@ def _gen_config_program(rng, tier):
         # a free-text option: the disabled-account marker -- also with '%', which the INI writer must escape and the reader undo
         cfg["schemes"].append("unix_disabled")
         cfg["unix_disabled__marker"] = rng.choice(["!", "*", "!%nologin", "*%LK%", "!100%", "!%%"])
+    # settings that are neither costs nor salts: they cross the INI text like everything else and must come back usable
+    if "bcrypt_sha256" in cfg["schemes"] and rng.random() < 0.5:
+        cfg[rng.choice(["bcrypt_sha256__version", "admin__bcrypt_sha256__version"])] = rng.choice([1, 2])
+    if "scrypt" in cfg["schemes"] and rng.random() < 0.5:
+        cfg[rng.choice(["scrypt__block_size", "scrypt__parallelism", "staff__scrypt__block_size"])] = rng.choice([1, 2, 4])
     # custom (unregistered) hashers can only wrap real classes, not PrefixWrapper objects
     faulty = rng.random() < 0.45 and not any(w in cfg["schemes"] for w in WRAPPERS)
     ops = []
